@@ -66,7 +66,8 @@ impl Rec {
 /// space at an edge (the BPSV reader and the command reader trim), a pure-dot path segment, and a
 /// name that makes the request line longer than 1 KiB.
 fn products() -> Vec<String> {
-    let mut v: Vec<String> = ["wow", "a_b", "a.b", "#b", "a/b", " a", ".."].iter().map(|s| (*s).to_string()).collect();
+    // (the last two: letters and digits outside ASCII — what `char::is_alphanumeric` admits)
+    let mut v: Vec<String> = ["wow", "a_b", "a.b", "#b", "a/b", " a", "..", "w\u{f6}w_\u{43a}\u{43b}", "d4-\u{30d9}.\u{663}"].iter().map(|s| (*s).to_string()).collect();
     v.push("p".repeat(LONG_PRODUCT));
     v
 }
@@ -169,7 +170,11 @@ fn single_record_dbs() -> Vec<Db> {
 
 fn multi_record_dbs() -> Vec<Db> {
     let mut out = Vec::new();
-    let times: [(&str, &str, &str); 4] = [
+    let times: [(&str, &str, &str); 7] = [
+        // instants on both sides of what 31 and 32 bits of seconds hold, and the last year four digits hold
+        ("around-2^31-seconds", "2038-01-19T03:14:07+00:00", "2038-01-19T03:14:08+00:00"),
+        ("around-2^32-seconds", "2106-02-07T06:28:15+00:00", "2106-02-07T06:28:16+00:00"),
+        ("year-9999", "2024-01-01T00:00:00+00:00", "9999-12-31T23:59:59+00:00"),
         ("ascending-same-offset", "2024-01-01T00:00:00+00:00", "2024-01-01T06:00:00+00:00"),
         ("mixed-offsets-lexicographic-differs", "2024-01-01T10:00:00+09:00", "2024-01-01T05:00:00+00:00"),
         ("mixed-offsets-negative", "2024-01-01T20:00:00-08:00", "2024-01-02T01:00:00+00:00"),
